@@ -158,7 +158,9 @@ def install_score_hooks(rec):
         def wrapper(*a, __orig=orig, __kind=kind, **k):
             res = __orig(*a, **k)
             try:
-                if a and isinstance(res, int) and _is_binary_square(a[0]):
+                # judged only in the calling convention the monitor understands (matrix, width, height): a call that
+                # carries anything else (a limit for an early exit, a precomputed part ...) may legitimately mean something else
+                if len(a) == 3 and not k and type(res) is int and _is_binary_square(a[0]) and a[1] == a[2] == len(a[0]):
                     m = [list(r) for r in a[0]]
                     if __kind == 'qr':
                         ok, want = _judge_qr(m, res)
